@@ -269,6 +269,13 @@ def lines_for_c14(rng, n):
     good = _hexstr(rng, "lower")
     for big in [(1 << 32) + 64, (1 << 33) + 64, (1 << 32) + 63, 1 << 32, (1 << 16) + 64, 256 + 64, 65]:
         add(f"E fromhexbig {big} " + hx(good))
+    # an AsRef<[u8]> argument that shows different bytes at a second look (shorter, longer, empty, another valid string, bad digits)
+    for _ in range(6):
+        g1, g2 = _hexstr(rng, "lower"), _hexstr(rng, "upper")
+        for second in [g1[:10], g1 + b"abcdef", b"", g2, b"zz" + g1[2:], g1[:63], g1]:
+            add("E fromhexre " + hx(g1) + " " + (hx(second) or "-"))
+        for first in [g1[:63], g1 + b"0", b"", b"g" + g1[1:]]:
+            add("E fromhexre " + (hx(first) or "-") + " " + hx(g2))
     # upper / lower / mixed renderings of the same value must decode alike
     for _ in range(40):
         h = rand_hash(rng)
